@@ -37,6 +37,24 @@ impl Emitter {
         if let Some(s) = self.cur_src.take() { self.linemap.push((n, self.file.clone(), s)); }
         self.lines.push(l.trim_end().to_string());
     }
+    /// a constructor call site was printed with a guess of how many `_` holes the constructor's generic list needs; once the constructor
+    /// itself is emitted the number is known: fix the call sites already printed (`X::< A, M, _, _ >(` keeps its leading names)
+    pub fn fix_ctor_holes(&mut self, ctor: &str, holes: usize) {
+        let pat = format!("{}::<", ctor);
+        for l in self.lines.iter_mut() {
+            let mut from = 0usize;
+            while let Some(p) = l[from..].find(&pat) {
+                let st = from + p + pat.len();
+                let Some(e) = l[st..].find(">(") else { break; };
+                let inner = l[st..st + e].to_string();
+                let names: Vec<String> = inner.split(',').map(|x| x.trim().to_string()).filter(|x| !x.is_empty() && x != "_").collect();
+                let mut parts = names.clone(); for _ in 0..holes { parts.push("_".to_string()); }
+                let newinner = format!(" {} ", parts.join(", "));
+                l.replace_range(st..st + e, &newinner);
+                from = st + newinner.len();
+            }
+        }
+    }
     pub fn raw(&mut self, s: &str) { for l in s.split('\n') { self.cur.push_str(l); self.flush(); } }
     pub fn comment(&mut self, s: &str) { self.raw(s); }
     pub fn raw_block(&mut self, s: &str, indent: &str) { for l in s.trim_end_matches('\n').split('\n') { self.cur.push_str(indent); self.cur.push_str(l); self.flush(); } }
